@@ -123,6 +123,7 @@ func fepWalk(ch choose.Chooser, cfg walkCfg) (*walkRes, *modelProver, error) {
 	if err != nil {
 		return nil, nil, err
 	}
+	w.noJumps = cfg.node.MaxCertSize > 0
 	m := newMAgglayer(w)
 	m.expectFEP = true
 	dbPath, clean := tmpDB("aggsender")
